@@ -78,6 +78,17 @@ func C13(c *core.Ctx) {
 	// another result than the first.
 	c13DirectValidatorCalls(c)
 	c13CountryGuards(c)
+	c.Rule("C13-R6", "the alternative country codes a regime is registered under are the ones its published definition lists (shared with C19-R5)", 2)
+	{
+		sub := core.NewCtx("C19", c.Tier, c.Seed, c.P, c.VerifDir)
+		sub.Quiet = true
+		c19SchemaEnums(sub)
+		for _, o := range sub.Obligations() {
+			if o.Rule == "C19-R5" && strings.Contains(o.Key, "#alt-country-codes") {
+				c.ObAt("C13-R6", o.Key, o.Pos, o.OK, o.Msg)
+			}
+		}
+	}
 	c.Rule("C13-R3", "the regime's own rewriting of a tax code comes after the common normalisation", 3)
 	for _, fd := range p.AllFuncs() {
 		rel := core.RelPkg(fd.Obj.Pkg().Path())
